@@ -7,7 +7,9 @@
                                   _heads, carry_over_possible, carried_over,
                                   revision = modified_rev | parent_entry.revision),
                                   VersionedFileCommitBuilder._heads (heads in the
-                                  revision graph), _add_file_to_weave,
+                                  per-file graph repository.texts since 2c4765b; the
+                                  old revision-graph variant is the per_file_heads =
+                                  false configuration), _add_file_to_weave,
                                   VersionedFileRepository._do_generate_text_key_index,
                                   _VersionedFileChecker._check_file_version_parents
      breezy/bzr/pack_repo.py      PackCommitBuilder._heads (heads in the per-file graph)
@@ -52,10 +54,20 @@ Definition newtree := list (fid * attrs).
 (* what one revision wrote to repository.texts: Some parents = key (f, r) added *)
 Definition textrow := list (fid * option (list revid)).
 
-(* per_file_heads: PackCommitBuilder._heads (2a, pack-0.92) vs
-   VersionedFileCommitBuilder._heads (knit formats, RemoteRepository);
+(* per_file_heads = true: heads are taken in the per-file graph.  This is what
+   every builder of the current code does: PackCommitBuilder._heads (text
+   index / repository.texts) and, since fix 2c4765b, VersionedFileCommitBuilder._heads
+   (Graph(repository.texts): knit formats, RemoteRepository).  [now rich] below.
+   per_file_heads = false is the OLD VersionedFileCommitBuilder._heads (heads in
+   the revision graph, HeadsCache(repository.get_graph())); it is kept only for
+   the C02_old_* statements about the repaired finding C02-global-heads-readd.
    rich_root: repository.supports_rich_root() *)
 Record cfg := mkCfg { per_file_heads : bool; rich_root : bool }.
+
+(* the configuration of the current code *)
+Definition now (rich : bool) : cfg := mkCfg true rich.
+(* the configuration of VersionedFileCommitBuilder before fix 2c4765b *)
+Definition old_global_heads (rich : bool) : cfg := mkCfg false rich.
 
 Record hist := mkH { h_g : dag; h_trees : list tree; h_texts : list textrow }.
 
